@@ -28,6 +28,7 @@ SOCKET = "crates/scion-stack/src/stack/socket.rs"
 SCMP_VIEW = SCI + "proto/payload/scmp/view.rs"
 SIM = "crates/pocketscion/src/network/local/simulator.rs"
 STACK = "crates/scion-stack/src/stack.rs"
+PS_ECHO = "crates/pocketscion/src/comp/echo_responder.rs"
 # codes of the handler types in STACK_SOCKET_HANDLERS (Model/ScmpHandler.lean `handlerOfCode`)
 HANDLER_CODES = {"ScmpErrorHandler": 0, "DefaultEchoHandler": 1}
 
@@ -448,8 +449,12 @@ def register(api):
         no_reply_unknown = bool(re.search(r"message_type\(\)\s*\)?\s*<\s*128", mc))
         hs = impl_block(sim, r"pub\s+fn\s+handle_scmp\(", "handle_scmp")
         v_echo, v_sim = "verify_checksum()" in te, "verify_checksum()" in hs
-        if v_echo != v_sim:
-            raise E(f"checksum verification on receive: echo handler {v_echo}, simulator {v_sim} (expected both or neither)")
+        psr = impl_block(api.strip_comments(api.read(PS_ECHO)), r"fn\s+handle_scmp_message\(", "PsEchoResponder::handle_scmp_message")
+        v_psr = "verify_checksum()" in psr
+        if re.findall(r"ScmpMessageView::(\w+)\(\w+\)\s*=>", psr) != ["EchoRequest"] or "ScionScmpPacket::new(dst, src, reply_path, reply)" not in " ".join(psr.split()):
+            raise E("PsEchoResponder::handle_scmp_message: shape (EchoRequest -> EchoReply from dst to src over the reversed path) not recognised")
+        if not (v_echo == v_sim == v_psr):
+            raise E(f"checksum verification on receive: echo handler {v_echo}, simulator {v_sim}, pocketscion echo responder {v_psr} (expected all or none)")
         sock = api.strip_comments(api.read(SOCKET))
         loops = re.findall(r"ProtocolNumber::Udp\s*=>\s*\{\s*\}\s*ProtocolNumber::Scmp\s*=>\s*\{.*?for\s+handler\s+in\s+&self\.scmp_handlers.*?continue;\s*\}\s*next_header\s*=>", sock, flags=re.S)
         if len(loops) < 2:
@@ -516,7 +521,7 @@ def register(api):
             body += f"def {k} : Nat := {vals[k]}\n"
         body += "/-- true iff every SCMP encoder folds the encoded message bytes into the checksum (`.add_slice`) -/\n"
         body += f"def CHECKSUM_COVERS_MESSAGE : Bool := {'true' if covered else 'false'}\n"
-        body += "/-- true iff DefaultEchoHandler and pocketscion's handle_scmp verify the SCMP checksum before answering -/\n"
+        body += "/-- true iff DefaultEchoHandler, pocketscion's handle_scmp and pocketscion's PsEchoResponder verify the SCMP checksum before answering -/\n"
         body += f"def VERIFY_CHECKSUM_ON_RECEIVE : Bool := {'true' if v_echo else 'false'}\n"
         body += "/-- true iff pocketscion's maybe_create_scmp_reply refuses to answer *every* SCMP type < 128, not only the known kinds -/\n"
         body += f"def NO_REPLY_TO_UNKNOWN_ERROR : Bool := {'true' if no_reply_unknown else 'false'}\n"
@@ -535,4 +540,4 @@ def register(api):
         body += "    0 = ScmpErrorHandler, 1 = DefaultEchoHandler; every construction site of stack.rs -/\n"
         body += "def STACK_SOCKET_HANDLERS : List (String × List Nat) := [" + ", ".join(f'("{f}", {c})' for f, c in wiring) + "]\n"
         body += "end ScionVerif.Generated.Scmp\n"
-        return api.write_lean("Scmp", body, [SCMP_LAYOUT, SCMP_TYPES, SCMP_MODEL, SCMP_VIEW, PAYLOAD, CHECKSUM, HDR_LAYOUT, GATEWAY, ECHO, ERRH, SOCKET, SIM, STACK]), vals
+        return api.write_lean("Scmp", body, [SCMP_LAYOUT, SCMP_TYPES, SCMP_MODEL, SCMP_VIEW, PAYLOAD, CHECKSUM, HDR_LAYOUT, GATEWAY, ECHO, ERRH, SOCKET, SIM, STACK, PS_ECHO]), vals
